@@ -58,6 +58,30 @@ pub trait DynRig {
     fn teardown(&mut self) -> Option<String>;
 }
 
+/// Placeholder rig (used when a corrupt rig has to be leaked).
+pub struct NullRig;
+impl DynRig for NullRig {
+    fn cfg(&self) -> &CfgInfo {
+        unreachable!()
+    }
+    fn nvecs(&self) -> usize {
+        0
+    }
+    fn exec(&mut self, _op: &Op) -> Outcome {
+        Outcome::default()
+    }
+    fn snap(&self, _v: usize) -> Snap {
+        Snap::default()
+    }
+    fn erased_views(&self, _v: usize) -> (Vec<Val>, Vec<Val>) {
+        (Vec::new(), Vec::new())
+    }
+    fn reset_vec(&mut self, _v: usize, _cap: usize) {}
+    fn teardown(&mut self) -> Option<String> {
+        None
+    }
+}
+
 pub type BoxRig = Box<dyn DynRig>;
 pub type RigFactory = fn(usize) -> BoxRig;
 
